@@ -132,6 +132,38 @@ func genPoolMain(seed uint64, n int) int {
 			}
 		}
 	}
+	// every exported function at least twice, whatever the draw was
+	all := []string{"GenerateKey", "NewKeyFromSeed", "Sign", "PrivSign", "Verify", "VerifyOpts", "VerifyBatch", "Public", "Seed", "PrivEqual", "PubEqual",
+		"X25519", "ScalarBaseMult", "ScalarMult", "EdPrivToX", "EdPubToX"}
+	slot := n - 1
+	for _, fn := range all {
+		have := 0
+		for _, op := range ops {
+			if op.Fn == fn {
+				have++
+			}
+		}
+		for k := 0; have < 2 && k < 4000 && slot >= 0; k++ {
+			op := genPoolOp(NewRng(seed, lbl("pool-fill"), lbl(fn), uint64(k)))
+			if op.Fn != fn || len(op.Entries) > 70 {
+				continue
+			}
+			// do not evict the last representative of another kind
+			cnt := 0
+			for _, o := range ops {
+				if o.Fn == ops[slot].Fn {
+					cnt++
+				}
+			}
+			if cnt <= 2 {
+				slot--
+				continue
+			}
+			ops[slot] = op
+			slot--
+			have++
+		}
+	}
 	b, _ := json.Marshal(ops)
 	os.Stdout.Write(append(b, '\n'))
 	return 0
@@ -867,7 +899,7 @@ func runEpisode(ep *Episode, pool []*Op, refs []Ref, st *ConcStats, a *concArgs)
 				// absolute, not relative to the solo run: the library wrote to
 				// an input that every client shares
 				viol = &ViolationRec{T: "violation", Prop: "C15", CheckID: "conc-input-modified", Engine: "conc",
-					Msg:      fmt.Sprintf("client %d op %d (%s, pool #%d) wrote to a shared, caller-owned input (read-only page fault)", c, j, pool[pi].Fn, pi),
+					Msg:      fmt.Sprintf("client %d op %d (%s, pool #%d) wrote to a caller-owned input (read-only page fault, or an argument array that came back changed)", c, j, pool[pi].Fn, pi),
 					Expected: "inputs are only read", Actual: o.Digest()}
 			}
 			if !o.Stable() && viol == nil {
